@@ -371,19 +371,28 @@ func checkC17(c *Ctx, w *World) {
 		ucs := newCondSpace(uccs, recOf(eqAtom("cfgNil", loadOf("gcpBalancer.cfg"), isNil)), "cfgNil")
 		imp, wit := ucs.Implies(ucs.Reach(call), ucs.Atom("cfgNil"))
 		// the argument is the update's own config after the type assertion
+		nAssert := 0
 		okArg := originsAll(call.Call.Args[1], func(o Origin) bool {
+			if isConstNilOrigin(o) {
+				return true // no configuration supplied: what the failed assertion of a nil interface yields as well
+			}
 			e, ok := o.Val.(*ssa.Extract)
 			if !ok || e.Index != 0 {
 				return false
 			}
 			ta, ok := e.Tuple.(*ssa.TypeAssert)
-			return ok && ta.CommaOk && shortType(ta.AssertedType) == "*grpcgcp.GCPBalancerConfig"
-		})
+			if ok && ta.CommaOk && shortType(ta.AssertedType) == "*grpcgcp.GCPBalancerConfig" {
+				nAssert++
+				return true
+			}
+			return false
+		}) && nAssert > 0
 		c.check(imp && okArg, "C17.once", "UpdateClientConnState → initializeConfig", p.ipos(call), "the configuration is fixed by the first resolver update (only while gb.cfg == nil), from that update's own BalancerConfig", "later resolver updates can re-initialise the configuration: "+wit)
 		// a foreign BalancerConfig is rejected before the configuration is touched
-		for _, r := range returnsOf(uccs) {
-			if nilErr, _ := allOrigins(r.Results[0], isConstNilOrigin); !nilErr && mayPrecede(call, r) {
-				c.fail("C17.once", "error return after initializeConfig", p.ipos(r), "an update can be rejected after the configuration was already applied")
+		for _, vr := range ucs.VirtualReturns() {
+			// (a merged `return err` is split per way of arriving)
+			if nilErr, _ := allOrigins(vr.Vals[0], isConstNilOrigin); !nilErr && mayPrecede(call, vr.Ret) && ucs.Satisfiable(and(vr.Cond, ucs.Reach(call))) {
+				c.fail("C17.once", "error return after initializeConfig", p.ipos(vr.Ret), "an update can be rejected after the configuration was already applied")
 			}
 		}
 	}
